@@ -250,6 +250,14 @@ def tasks(tier, seed):
             add("total:%s:%s:%s>%s" % (t, bk, tz, to), "h_total", {"template": t, "base_kind": bk, "tz": tz, "to_tz": to,
                                                                    "parsers": parsers, "aware": [None, True, False][(i + seed) % 3]},
                 90)
+    # every parser kind in the LAST position of PARSERS (what the last parser reports when nothing matches must not leak)
+    ALLP = ["timestamp", "negative-timestamp", "relative-time", "custom-formats", "absolute-time", "no-spaces-time"]
+    plists = [[p for p in ALLP if p != last][(seed + k) % 5:][:2] + [last] for k, last in enumerate(ALLP)]
+    ptempl = ["slash_yy", "hm", "digits6", "years_ago", "d_month", "epoch13"]
+    for k, pl in enumerate(plists):
+        for t in ([ptempl[(k + seed) % len(ptempl)]] if quick else ptempl):
+            add("total-parsers:%s:%s" % ("+".join(pl), t), "h_total", {"template": t, "base_kind": "naive", "tz": None, "to_tz": None,
+                                                                      "parsers": pl}, 90)
     # the classic end-of-range inputs are always visited
     add("total:iso_dt_tz-:naive:UTC>None:edge", "h_total", {"template": "iso_dt_tz-", "base_kind": "naive", "tz": "UTC", "to_tz": None}, 90)
     add("total:time_only:clock:-1200>+0530:edge", "h_total", {"template": "time_only", "base_kind": "clock", "tz": "-1200", "to_tz": "+0530"}, 60)
